@@ -1,53 +1,251 @@
 /-
   C15 — "EDIF references to cells, ports, instances or libraries that were never declared … are
   always rejected"; what is accepted is self-contained.  Property theorems only.
-  Model: Spydr/IO/ModelResolve.lean (`resolve`), spec: Spydr/IO/SpecResolve.lean.
+  Model: Spydr/IO/ModelResolve.lean (`resolve`); spec: Spydr/IO/SpecResolve.lean — the scoping rules
+  as a positions-only visibility fold `visAt` and the declarative `RefOk` (bound to that scope, first
+  match in declaration order).  Together the theorems pin `resolve` exactly:
+      (∃ rs, resolve evs = ok rs) ↔ wellScoped evs,   and every (k, r) ∈ rs is THE r with RefOk evs k r.
 -/
 import Spydr.IO.LemmasResolve
 namespace Spydr.IO
 open Resolve
 
-/-- T `resolved_declared`: if the resolver accepts the stream, every reference (instance → cell,
-    portRef → port/bit of a cell, through an instance or not, design → cell) resolves to a DECLARATION
-    EVENT OF THE SAME STREAM that comes earlier and bears the referenced identifier (case-insensitively),
-    with the member index inside the port: the result is self-contained. -/
+/-- T `resolved_declared`: if the resolver accepts the stream, every resolution is the one the scoping
+    rules prescribe (`RefOk`): an instance's cell is the first cell of that name among the CLOSED cells
+    of the library its libraryRef names (current library by name or by default, else the first closed
+    library of that name) — or the enclosing cell for a bare viewRef — with the named view; a portRef
+    without instanceRef is a port of the ENCLOSING cell; with instanceRef, the instance is the first of
+    that name declared so far IN THE SAME contents and the port belongs to the cell that very instance
+    refers to; the port is the first of that name and the member index is inside it; the design's cell
+    is the first of that name in the first closed library of that name.  Hence self-contained. -/
 theorem resolved_declared (evs : List Ev) (rs : List (Nat × RRef)) (h : resolve evs = .ok rs) :
     ∀ kr ∈ rs, RefOk evs kr.1 kr.2 :=
-  (go_sound evs [] evs rfl Scope.empty (scopeOK_empty evs) rs h).1
+  (go_sound evs [] evs rfl Scope.empty (inv_init evs) rs h).1
 
 /-- no reference is skipped: the resolutions are those of the reference events, in order -/
 theorem resolve_complete (evs : List Ev) (rs : List (Nat × RRef)) (h : resolve evs = .ok rs) :
     rs.map (·.1) = refPositions 0 evs :=
-  (go_sound evs [] evs rfl Scope.empty (scopeOK_empty evs) rs h).2.2
+  (go_sound evs [] evs rfl Scope.empty (inv_init evs) rs h).2.1
 
-/-- T `dangling_rejected`: a stream in which some cellRef / libraryRef / viewRef / portRef /
-    instanceRef / design target names an identifier declared nowhere in the file is rejected. -/
-theorem dangling_rejected (evs : List Ev) (h : hasUndeclared evs = true) : ∃ e, resolve evs = .error e := by
-  cases hr : resolve evs with
-  | error e => exact ⟨e, rfl⟩
+/-- T `out_of_scope_rejected`: a reference for which the scoping rules allow NO resolution — its name
+    has no declaration visible at that point (declared nowhere, or only in another cell / another
+    library / later / in a library not yet closed), the view does not match, the member index is out of
+    range — makes the resolver reject the stream. -/
+theorem out_of_scope_rejected (evs : List Ev) (k : Nat) (e : Ev) (he : evs[k]? = some e) (hr : isRef e = true)
+    (hno : ¬ ∃ r, RefOk evs k r) : ∃ err, resolve evs = .error err := by
+  cases hres : resolve evs with
+  | error err => exact ⟨err, rfl⟩
   | ok rs =>
-    have := (go_sound evs [] evs rfl Scope.empty (scopeOK_empty evs) rs hr).2.1
-    simp only [hasUndeclared, List.any_eq_true] at h
-    obtain ⟨e, he, hu⟩ := h
-    rw [this e he] at hu
-    cases hu
+    have hc := resolve_complete evs rs hres
+    have hk := mem_refPositions evs 0 k e he hr
+    rw [Nat.zero_add, ← hc] at hk
+    obtain ⟨kr, hkr, hkk⟩ := List.mem_map.mp hk
+    have := resolved_declared evs rs hres kr hkr
+    rw [hkk] at this
+    exact absurd ⟨kr.2, this⟩ hno
+
+/-- T `wellScoped_accepted`: conversely, a properly nested stream in which the rules allow a resolution
+    for every reference is accepted. -/
+theorem wellScoped_accepted (evs : List Ev) (h : wellScoped evs) : ∃ rs, resolve evs = .ok rs :=
+  go_complete evs h.1 h.2 [] evs rfl Scope.empty (inv_init evs)
+
+/-- accepted ⇔ well scoped -/
+theorem resolve_iff_wellScoped (evs : List Ev) : (∃ rs, resolve evs = .ok rs) ↔ wellScoped evs := by
+  constructor
+  · rintro ⟨rs, h⟩
+    obtain ⟨h1, h2, h3⟩ := go_sound evs [] evs rfl Scope.empty (inv_init evs) rs h
+    have h2 : rs.map (·.1) = refPositions 0 evs := h2
+    refine ⟨?_, ?_⟩
+    · intro k hk
+      have := h3 k hk
+      simpa using this
+    · intro k e he hr
+      have hk := mem_refPositions evs 0 k e he hr
+      rw [Nat.zero_add, ← h2] at hk
+      obtain ⟨kr, hkr, hkk⟩ := List.mem_map.mp hk
+      exact ⟨kr.2, hkk ▸ h1 kr hkr⟩
+  · exact wellScoped_accepted evs
+
+/-- the rules prescribe at most one resolution: with the theorems above, `resolve` is pinned exactly -/
+theorem resolution_unique (evs : List Ev) (k : Nat) (r r' : RRef) (h : RefOk evs k r) (h' : RefOk evs k r') :
+    r = r' := by
+  cases r with
+  | cell d =>
+    cases r' with
+    | cell d' => rw [CellRefOk.unique h h']
+    | pin c port bit ia =>
+      obtain ⟨_, _, _, _, _, h1, _⟩ := h
+      obtain ⟨_, _, _, _, _, _, h1', _⟩ := h'
+      rw [h1] at h1'; cases h1'
+    | top d' =>
+      obtain ⟨_, _, _, _, _, h1, _⟩ := h
+      obtain ⟨_, _, _, _, _, h1', _⟩ := h'
+      rw [h1] at h1'; cases h1'
+  | top d =>
+    cases r' with
+    | cell d' =>
+      obtain ⟨_, _, _, _, _, h1, _⟩ := h
+      obtain ⟨_, _, _, _, _, h1', _⟩ := h'
+      rw [h1] at h1'; cases h1'
+    | pin c port bit ia =>
+      obtain ⟨_, _, _, _, _, h1, _⟩ := h
+      obtain ⟨_, _, _, _, _, _, h1', _⟩ := h'
+      rw [h1] at h1'; cases h1'
+    | top d' =>
+      obtain ⟨cn, ln, v, q, cells, h1, h2, h3, h4⟩ := h
+      obtain ⟨cn', ln', v', q', cells', h1', h2', h3', h4'⟩ := h'
+      rw [h1] at h1'; cases h1'
+      rw [h2] at h2'; cases h2'
+      have := h3.unique h3'
+      cases this
+      rw [h4.unique h4']
+  | pin c port bit ia =>
+    cases r' with
+    | cell d' =>
+      obtain ⟨_, _, _, _, _, _, h1, _⟩ := h
+      obtain ⟨_, _, _, _, _, h1', _⟩ := h'
+      rw [h1] at h1'; cases h1'
+    | top d' =>
+      obtain ⟨_, _, _, _, _, _, h1, _⟩ := h
+      obtain ⟨_, _, _, _, _, h1', _⟩ := h'
+      rw [h1] at h1'; cases h1'
+    | pin c' port' bit' ia' =>
+      obtain ⟨pid, m, io, v, cc, is, h1, h2, h3, h4, ps, pd, h5, h6, h7, _⟩ := h
+      obtain ⟨pid', m', io', v', cc', is', h1', h2', h3', h4', ps', pd', h5', h6', h7', _⟩ := h'
+      rw [h1] at h1'; cases h1'
+      rw [h2] at h2'; cases h2'
+      rw [h3] at h3'; cases h3'
+      have hc : c = c' ∧ ia = ia' := by
+        cases io <;> cases ia <;> cases ia' <;> simp only at h4 h4' <;>
+          first
+          | exact ⟨h4.trans h4'.symm, rfl⟩
+          | (have ha := h4.1.unique h4'.1
+             subst ha
+             exact ⟨h4.2.unique h4'.2, rfl⟩)
+          | exact False.elim h4
+          | exact False.elim h4'
+      obtain ⟨rfl, rfl⟩ := hc
+      rw [h5] at h5'; cases h5'
+      obtain ⟨rfl, _⟩ := h6.unique h6'
+      rw [h7, h7']
+
+/-! the coarse corollary: identifiers declared nowhere -/
+
+theorem mem_declaredCells {evs : List Ev} {n : String} {d : Nat} (h : CellNamed evs n d) :
+    (declaredCells evs).contains n.toLower = true := by
+  obtain ⟨i, v, ps, he, hn⟩ := h
+  have : i.toLower ∈ declaredCells evs := List.mem_filterMap.mpr ⟨_, List.mem_of_getElem? he, rfl⟩
+  rw [eqI_lower hn] at this
+  simpa using this
+
+theorem mem_declaredLibs {evs : List Ev} {n : String} {p : Nat} (h : LibNamed evs n p) :
+    (declaredLibs evs).contains n.toLower = true := by
+  obtain ⟨i, he, hn⟩ := h
+  have : i.toLower ∈ declaredLibs evs := List.mem_filterMap.mpr ⟨_, List.mem_of_getElem? he, rfl⟩
+  rw [eqI_lower hn] at this
+  simpa using this
+
+theorem mem_declaredInsts {evs : List Ev} {n : String} {a : Nat} (h : InstNamed evs n a) :
+    (declaredInsts evs).contains n.toLower = true := by
+  obtain ⟨i, v, c, l, he, hn⟩ := h
+  have : i.toLower ∈ declaredInsts evs := List.mem_filterMap.mpr ⟨_, List.mem_of_getElem? he, rfl⟩
+  rw [eqI_lower hn] at this
+  simpa using this
+
+theorem mem_declaredViews {evs : List Ev} {n : String} {d : Nat} (h : ViewIs evs n d) :
+    (declaredViews evs).contains n.toLower = true := by
+  obtain ⟨i, v, ps, he, hn⟩ := h
+  have : v.toLower ∈ declaredViews evs := List.mem_filterMap.mpr ⟨_, List.mem_of_getElem? he, rfl⟩
+  rw [eqI_lower hn] at this
+  simpa using this
+
+theorem libCells_declared {evs : List Ev} {v : Vis} {ln : String} {cells : List Nat}
+    (h : LibCells evs v (some ln) cells) : (declaredLibs evs).contains ln.toLower = true := by
+  obtain ⟨p, cs, _, h2⟩ := h
+  rcases h2 with ⟨hn, _⟩ | ⟨_, q, hq⟩
+  · exact mem_declaredLibs hn
+  · exact mem_declaredLibs hq.mem.2
+
+theorem refOk_declared (evs : List Ev) (k : Nat) (e : Ev) (he : evs[k]? = some e) (r : RRef)
+    (h : RefOk evs k r) : undeclared evs e = false := by
+  cases r with
+  | cell d =>
+    obtain ⟨iid, iv, co, lo, v, h1, _, hview, hm⟩ := h
+    rw [he] at h1; cases h1
+    simp only [undeclared, Bool.or_eq_false_iff]
+    refine ⟨?_, by rw [mem_declaredViews hview]; rfl⟩
+    cases co with
+    | none => rfl
+    | some cn =>
+      obtain ⟨cells, hl, hf⟩ := hm
+      simp only [Bool.or_eq_false_iff]
+      refine ⟨by rw [mem_declaredCells hf.mem.2]; rfl, ?_⟩
+      cases lo with
+      | none => rfl
+      | some ln => simp only; rw [libCells_declared hl]; rfl
+  | pin c port bit ia =>
+    obtain ⟨pid, m, io, v, cc, is, h1, _, _, h4, ps, pd, h5, h6, _, _⟩ := h
+    rw [he] at h1; cases h1
+    simp only [undeclared, Bool.or_eq_false_iff]
+    refine ⟨?_, ?_⟩
+    · have hp : pd.ident.toLower ∈ declaredPorts evs := by
+        unfold portsOf at h5
+        split at h5
+        · rename_i i cv ps' hc
+          cases h5
+          exact List.mem_flatMap.mpr ⟨_, List.mem_of_getElem? hc, List.mem_map.mpr ⟨pd, List.mem_of_getElem? h6.1, rfl⟩⟩
+        · cases h5
+      rw [eqI_lower h6.2.1] at hp
+      have : (declaredPorts evs).contains pid.toLower = true := by simpa using hp
+      rw [this]; rfl
+    · cases io with
+      | none => rfl
+      | some iname =>
+        cases ia with
+        | none => exact h4.elim
+        | some a => simp only at h4 ⊢; rw [mem_declaredInsts h4.1.mem.2]; rfl
+  | top d =>
+    obtain ⟨cn, ln, v, q, cells, h1, _, h3, h4⟩ := h
+    rw [he] at h1; cases h1
+    simp only [undeclared, Bool.or_eq_false_iff]
+    exact ⟨by rw [mem_declaredCells h4.mem.2]; rfl, by rw [mem_declaredLibs h3.mem.2]; rfl⟩
+
+/-- T `dangling_rejected` (the coarse form): a stream in which some cellRef / libraryRef / viewRef /
+    portRef / instanceRef / design target names an identifier declared nowhere in the file is rejected. -/
+theorem dangling_rejected (evs : List Ev) (h : hasUndeclared evs = true) : ∃ e, resolve evs = .error e := by
+  simp only [hasUndeclared, List.any_eq_true] at h
+  obtain ⟨e, hmem, hu⟩ := h
+  obtain ⟨k, hk⟩ := List.getElem?_of_mem hmem
+  have hr : isRef e = true := by
+    cases e <;> simp [undeclared] at hu <;> rfl
+  apply out_of_scope_rejected evs k e hk hr
+  rintro ⟨r, hr'⟩
+  rw [refOk_declared evs k e hk r hr'] at hu
+  cases hu
 
 /-! non-vacuity (symbolic in the identifiers, so that no string evaluation is needed):
     a two-library file — a primitive with a 2-bit port, a module instantiating it through
     `(viewRef v (cellRef c (libraryRef l)))`, a `(portRef (member p 1) (instanceRef u))`, a design — is
-    accepted with the expected resolution; a cellRef to a name that is not a declared cell is rejected. -/
+    accepted with the expected resolution; a cellRef to a name that is not a declared cell is rejected;
+    an instanceRef to an instance that exists only in ANOTHER cell is rejected. -/
 example (l l2 c t v u p : String) (h : l2.toLower ≠ l.toLower) :
     resolve [.lib l, .cell c v [⟨p, 2⟩], .endCell, .endLib,
              .lib l2, .cell t v [], .inst u v (some c) (some l), .portRef p (some 1) (some u), .endCell, .endLib,
              .design t l2]
       = .ok [(6, .cell 1), (7, .pin 1 0 1 (some 6)), (10, .top 5)] := by
   have h' : ¬ l.toLower = l2.toLower := fun e => h e.symm
-  simp [resolve, go, stepEv, Scope.empty, resolveTarget, targetCells, pickCell, findCell, findLib, findInst,
-    ownerOf, pickPort, findPort, pickTop, eqI, h, h']
+  simp [resolve, go, stepEv, Scope.empty, resolveTarget, targetCells, pickCell, isCellNamed, isLibNamed, isInstNamed,
+    viewIs, portsOf, ownerOf, pickPort, findPort, pickTop, eqI, h, h']
 
 example (l c v u x : String) (h : x.toLower ≠ c.toLower) :
     ∃ e, resolve [.lib l, .cell c v [], .inst u v (some x) none, .endCell, .endLib] = .error e := by
   apply dangling_rejected
   simp [hasUndeclared, undeclared, declaredCells, declaredViews, h]
+
+example (l a b v u p : String) :
+    resolve [.lib l, .cell a v [⟨p, 1⟩], .inst u v none none, .endCell,
+             .cell b v [], .portRef p none (some u), .endCell, .endLib]
+      = .error .danglingInstance := by
+  simp [resolve, go, stepEv, Scope.empty, resolveTarget, viewIs, ownerOf, eqI]
 
 end Spydr.IO
